@@ -4,6 +4,7 @@ import os
 
 from lib import nf
 
+DERIVED = ("eq", "ne", "assert_fields_are_eq", "clone", "fmt", "hash", "partial_cmp", "cmp")
 AREAS = {
     # area -> (crate, module filters or None, excluded function names)
     "html_tree_builder": ("html5ever", ["tree_builder"], ("dump_state", "debug_step")),
@@ -17,14 +18,19 @@ AREAS = {
     "tendril_core": ("tendril", ["tendril", "buf32", "fmt", "util"], ()),
     "tendril_decode": ("tendril", ["stream", "utf8_decode", "futf"], ()),
     "rcdom": ("markup5ever_rcdom", None, ()),
+    # token types, state enums, option defaults and the free helper functions of the tokenizers
+    # (the Tokenizer / CharRefTokenizer methods themselves are covered by the tokenizer tables)
+    "html_tokenizer_misc": ("html5ever", ["tokenizer"], DERIVED, ("Tokenizer", "CharRefTokenizer")),
+    "xml_tokenizer_misc": ("xml5ever", ["tokenizer"], DERIVED + ("run", "step", "incr", "do_before_name", "do_in_name", "do_after_colon"), ("XmlTokenizer", "CharRefTokenizer", "QualNameTokenizer")),
 }
 _cache = {}
 
 
 def area_current(ctx, area):
     if area not in _cache:
-        crate, mods, excl = AREAS[area]
-        _cache[area] = nf.area_nf(ctx.ast, crate, mods, excl)
+        crate, mods, excl = AREAS[area][:3]
+        skip_types = AREAS[area][3] if len(AREAS[area]) > 3 else ()
+        _cache[area] = nf.area_nf(ctx.ast, crate, mods, excl, skip_types)
     return _cache[area]
 
 
